@@ -1075,7 +1075,7 @@ func run(c *vf.Ctx) {
 	c.Logf("stack sequences done")
 	c.Parallel(nmulti, workers, 5000000, func(i int, rng *rand.Rand) { runMulti(c, i, rng, nops) })
 	if len(vkSeen) > 0 {
-		c.Set("violation_key_counts", vkSeen)
+		c.Set("reported_keys_incl_known", vkSeen)
 	}
 	c.Assume("the ordered-map overlay model in checks/c22/model.go is the reference")
 	c.Assume("a layer is mutated directly only while it is the top of its stack (cache wraps keep stale reads of a parent written underneath by design)")
